@@ -2,6 +2,7 @@
    on every run) is [nd_sort_cmp] of Model/Truncate.v: ranks are Python ints (the model's naturals, injected), crowding
    distances live in xq (incl. +inf) with "<" = xltb and unary minus = xneg. *)
 From Coq Require Import ZArith QArith Arith Bool List Lia.
+Import ListNotations.
 From PV Require Import Base.Num Base.PyCore Gen.Core Model.NDSort Model.Truncate.
 Open Scope Z_scope.
 
@@ -41,3 +42,141 @@ Proof.
             n_abs := fun a => a; n_floor := fun _ => 0; n_of_Z := FZ; n_lit := Fin |}.
   split; reflexivity.
 Qed.
+
+(* ================================================================================================
+   Phase 2: filters.matches / filters.truncate and core.nondominated_truncate / truncate_fitness /
+   nondominated_split, generated from platypus/filters.py and platypus/core.py
+   ================================================================================================ *)
+
+(* ---- _matches (a generator: the list of the solutions it yields) and matches ---- *)
+Lemma filter_fold {A} (p : A -> bool) (l acc : list A) :
+  fold_left (fun out s => if p s then out ++ [s] else out) l acc = acc ++ filter p l.
+Proof.
+  revert acc. induction l as [|s l IH]; intro acc; cbn [fold_left filter]; [now rewrite app_nil_r|].
+  rewrite IH. destruct (p s); [now rewrite <- app_assoc|reflexivity].
+Qed.
+
+Theorem tie_matches_gen : forall (A : Type) (key : A -> Z) (l : list A) (value : Z),
+  Core.matches_gen A l value key = Some (filter (fun s => key s =? value) l).
+Proof.
+  intros A key l value. unfold Core.matches_gen. cbv zeta.
+  rewrite (for_list_ext _ (fun s out => Next (if key s =? value then out ++ [s] else out))).
+  2: { intros s out. destruct (key s =? value); reflexivity. }
+  rewrite (for_list_total (fun out s => if key s =? value then out ++ [s] else out)).
+  rewrite filter_fold. reflexivity.
+Qed.
+
+(* with the keys the code uses it on (rank_key: a natural number) this is Model/Truncate.matches *)
+Theorem tie_matches : forall (A : Type) (rank : A -> nat) (l : list A) (value : nat),
+  Core.matches A (Core.matches_gen A) l (Z.of_nat value) (fun s => Z.of_nat (rank s)) = Some (matches rank l value).
+Proof.
+  intros A rank l value. unfold Core.matches. rewrite tie_matches_gen. cbn [get finish]. unfold matches.
+  f_equal. apply filter_ext. intro s. apply Z_eqb_of_nat.
+Qed.
+
+(* ---- truncate: sorted(solutions, key=key, reverse=reverse)[:size]; Python's sorted is the stable sort [sorted_by] ---- *)
+Theorem tie_truncate : forall (A : Type) (lt : A -> A -> bool) (reverse : bool) (l : list A) (size : nat),
+  Core.truncate A (A -> A -> bool) (fun l k r => sorted_by k r l) l (Z.of_nat size) lt reverse = truncate lt reverse l size.
+Proof. intros. unfold Core.truncate, truncate. apply py_upto_z_nat. Qed.
+
+Theorem tie_truncate_default_reverse : Core.truncate_default_reverse = false.
+Proof. reflexivity. Qed.
+
+(* the callee [truncate] as the callers below see it: key by "less than", size an int *)
+Definition truncate_callee {A} (l : list A) (size : Z) (lt : A -> A -> bool) (reverse : bool) : list A :=
+  truncate lt reverse l (Z.to_nat size).
+
+(* ---- nondominated_truncate: truncate(solutions, size, key=functools.cmp_to_key(nondominated_sort_cmp)) ---- *)
+Theorem tie_nondominated_truncate : forall (l : list asol) (size : nat),
+  Core.nondominated_truncate asol (asol -> asol -> bool) (asol -> asol -> Z)
+                             truncate_callee cmp_key_lt nd_sort_cmp l (Z.of_nat size)
+  = nondominated_truncate l size.
+Proof.
+  intros. unfold Core.nondominated_truncate, truncate_callee, nondominated_truncate, nd_lt. now rewrite Nat2Z.id.
+Qed.
+
+(* ---- truncate_fitness: truncate(solutions, size, key=getter, reverse=larger_preferred) ---- *)
+Theorem tie_truncate_fitness : forall (A : Type) (fitness : A -> xq) (l : list A) (size : nat) (larger_preferred : bool),
+  Core.truncate_fitness A (A -> xq)
+                        (fun l sz k r => truncate_callee l sz (fun a b => xltb (k a) (k b)) r) l (Z.of_nat size) larger_preferred fitness
+  = truncate_fitness fitness l size larger_preferred.
+Proof.
+  intros. unfold Core.truncate_fitness, truncate_callee, truncate_fitness. now rewrite Nat2Z.id.
+Qed.
+
+Theorem tie_truncate_fitness_default : Core.truncate_fitness_default_larger_preferred = true.
+Proof. reflexivity. Qed.
+
+(* ---- nondominated_split: while loop with break and an early return, on explicit fuel ---- *)
+Section Split.
+  Variable A : Type.
+  Variable rank : A -> nat.
+  Variable l : list A.
+  Variable size : nat.
+
+  Definition split_state := (list A * Z * bool)%type.
+
+  Lemma split_while : forall (cond : split_state -> bool) (body : split_state -> ctl split_state (list A * list A)),
+    (forall res rk b, cond (res, rk, b) = negb b && (py_len res <? Z.of_nat size)) ->
+    (forall res rk, body (res, Z.of_nat rk, false) =
+        let front := matches rank l rk in
+        if py_len front =? 0 then Next (res, Z.of_nat rk, true)
+        else if py_len res + py_len front <=? Z.of_nat size then Next (res ++ front, Z.of_nat rk + 1, false)
+        else Ret (res, front)) ->
+    forall (k : split_state -> ctl unit (list A * list A)), (forall res z b, k (res, z, b) = Ret (res, [])) ->
+    forall fuel res rk,
+    bind (while_fuel fuel cond body (res, Z.of_nat rk, false)) k
+    = match split_loop rank fuel l size res rk with
+      | Some p => @Ret unit _ p
+      | None => Raise
+      end.
+  Proof.
+    intros cond body Hc Hb k Hk.
+    assert (Hstop : forall fuel res z, while_fuel fuel cond body (res, z, true) = Next (res, z, true)).
+    { intros [|f] res z; cbn [while_fuel]; rewrite Hc; reflexivity. }
+    induction fuel as [|f IH]; intros res rk; cbn [while_fuel split_loop]; rewrite Hc; cbn [negb andb]; unfold py_len;
+      rewrite Z_ltb_of_nat; destruct (Nat.ltb (length res) size); cbn [bind]; rewrite ?Hk; try reflexivity.
+    rewrite Hb. cbv zeta. unfold py_len.
+    change 0 with (Z.of_nat 0). rewrite Z_eqb_of_nat.
+    destruct (Nat.eqb (length (matches rank l rk)) 0).
+    - rewrite Hstop. cbn [bind]. now rewrite Hk.
+    - rewrite <- Nat2Z.inj_add.
+      assert (E : (Z.of_nat (length res + length (matches rank l rk)) <=? Z.of_nat size)
+                  = Nat.leb (length res + length (matches rank l rk)) size).
+      { destruct (Nat.leb (length res + length (matches rank l rk)) size) eqn:E.
+        - apply Nat.leb_le in E. apply Z.leb_le. lia.
+        - apply Nat.leb_gt in E. apply Z.leb_gt. lia. }
+      rewrite E. destruct (Nat.leb (length res + length (matches rank l rk)) size); [|reflexivity].
+      replace (Z.of_nat rk + 1) with (Z.of_nat (S rk)) by lia. apply IH.
+  Qed.
+
+  Theorem tie_nondominated_split : forall (fuel : nat) (K : Type) (rank_key : K),
+    Core.nondominated_split A K fuel (fun sols v _ => matches rank sols (Z.to_nat v)) rank_key l (Z.of_nat size)
+    = split_loop rank fuel l size [] 0%nat.
+  Proof.
+    intros fuel K rank_key. unfold Core.nondominated_split. cbv zeta.
+    match goal with
+    | |- context [while_fuel fuel ?c ?b _] =>
+        assert (Hc : forall res rk b', c (res, rk, b') = negb b' && (py_len res <? Z.of_nat size)) by (intros; reflexivity);
+        assert (Hb : forall res rk, b (res, Z.of_nat rk, false) =
+                  let front := matches rank l rk in
+                  if py_len front =? 0 then Next (res, Z.of_nat rk, true)
+                  else if py_len res + py_len front <=? Z.of_nat size then Next (res ++ front, Z.of_nat rk + 1, false)
+                  else Ret (res, front));
+        [|match goal with |- context [bind _ ?k] =>
+              pose proof (split_while c b Hc Hb k (fun res z b' => eq_refl) fuel [] 0%nat) as H end]
+    end.
+    - intros res rk. rewrite Nat2Z.id. cbv zeta.
+      destruct (py_len (matches rank l rk) =? 0); [reflexivity|].
+      destruct (py_len res + py_len (matches rank l rk) <=? Z.of_nat size); reflexivity.
+    - change (Z.of_nat 0) with 0 in H.
+      etransitivity; [apply (f_equal finish); exact H|].
+      destruct (split_loop rank fuel l size [] 0%nat); reflexivity.
+  Qed.
+
+  (* with the fuel the model uses (one iteration per accepted front, at most [size]) this is nondominated_split's split_by *)
+  Corollary tie_split_by : forall (K : Type) (rank_key : K),
+    Core.nondominated_split A K size (fun sols v _ => matches rank sols (Z.to_nat v)) rank_key l (Z.of_nat size)
+    = split_by rank l size.
+  Proof. intros. apply tie_nondominated_split. Qed.
+End Split.
